@@ -12,12 +12,13 @@ DtOf(o) == IF o = None THEN None ELSE o[1]
 
 PropVerdict(r) ==
   LET R == SeqToSet(r.R)  ps == SeqToSet(r.present) IN
-  IF r.pdf # "current_period" THEN "skip"
-  ELSE IF \E o \in {r.outN, r.outS, r.outS2, r.outR, r.outR2} : o # None /\ IsExc(o) THEN "exception"
+  \* under PREFER_DATES_FROM past / future a stated two-digit year is still pivoted by the clock: the clock-freedom
+  \* clauses are judged for the default preference only; "strictness only filters" holds for every preference
+  IF \E o \in {r.outN, r.outS, r.outS2, r.outR, r.outR2} : o # None /\ IsExc(o) THEN "exception"
   ELSE IF ~StrictFilters(r.outN, r.outS) THEN "strict-changed-result"
-  ELSE IF ~ClockFree(r.outS, r.outS2) THEN "strict-result-depends-on-reference-time"
+  ELSE IF r.pdf = "current_period" /\ ~ClockFree(r.outS, r.outS2) THEN "strict-result-depends-on-reference-time"
   ELSE IF ~RequireFilters(r.outN, r.outR) THEN "require-parts-changed-result"
-  ELSE IF ~RequireClockFree(DtOf(r.outR), DtOf(r.outR2), R) THEN "required-part-depends-on-reference-time"
+  ELSE IF r.pdf = "current_period" /\ ~RequireClockFree(DtOf(r.outR), DtOf(r.outR2), R) THEN "required-part-depends-on-reference-time"
   ELSE IF r.gen /\ ~StatesAll(r.outS, ps) THEN "strict-result-without-all-parts"
   ELSE IF r.gen /\ ~RequireStates(r.outR, ps, R) THEN "result-without-required-part"
   ELSE "ok"
